@@ -416,8 +416,9 @@ def compatible(left, rest):
         return False                                        # R3
     if lk == 'cmd0' and (rt[0].isalpha() or rt[0] == '*'):
         return False                                        # R1
-    if lk in ('cmd0', 'cmdargs', 'env') and ATTACH.match(rt):
+    if lk in ('cmd0', 'cmdargs') and ATTACH.match(rt):
         return False                                        # R2
+    # after \end{name} a brace group is an ordinary group and a bracket is ordinary text: well-formed (no rule)
     if lk == 'math$' and rt[0] == '$':
         return False                                        # R7
     if rk == 'math$' and left[0].endswith('$') and not left[0].endswith('\\$'):
